@@ -1,5 +1,6 @@
 """C10 Variogram fitting honours constraints: pack/unpack order, bound sources, closure writes vs post-processing, sill paths."""
 import ast
+import itertools
 
 from .. import ordtype as O
 from ..loader import AnalysisError, norm_stmt
@@ -67,10 +68,6 @@ def pack_unpack(ctx, rule="R10.1"):
             if reads:
                 order.append((st.test.slice.value, reads, incs))
     ctx.check([o[0] for o in order] == DP, rule, FIT + "::curve", "the residual function consumes the standard slots in DEFAULT_PARA order: %s" % [o[0] for o in order], "unpack-order")
-    ctx.check(all(o[1] == ["args[para_skip]"] and o[2] == ["para_skip += 1"] for o in order), rule, FIT + "::curve", "each selected standard parameter reads args[para_skip] and advances the cursor by one", "unpack-cursor")
-    optl = [s for s in curve.body if isinstance(s, ast.For) and ast.unparse(s.iter) == "model.opt_arg"]
-    ok = len(optl) == 1 and norm_stmt(optl[0].body[0]) == "if para[opt]: setattr(model, opt, args[para_skip + opt_skip]) opt_skip += 1"
-    ctx.check(ok, rule, FIT + "::curve", "optional arguments follow at args[para_skip + opt_skip] in model.opt_arg order", "unpack-opt")
     an = [n for n in ast.walk(curve) if isinstance(n, ast.Assign) and ast.unparse(n.targets[0]) == "model.anis"]
     ok = len(an) == 1 and ast.unparse(an[0].value) == "args[1 - model.dim:]" and _guards(curve, an[0]) == ["is_dir_vario", "anis"]
     ctx.check(ok, rule, FIT + "::curve", "the anisotropy ratios are the last dim-1 entries of the vector", "unpack-anis")
@@ -81,19 +78,51 @@ def pack_unpack(ctx, rule="R10.1"):
     l1 = [s for s in post.body if isinstance(s, ast.For) and ast.unparse(s.iter) == "DEFAULT_PARA"]
     l2 = [s for s in post.body if isinstance(s, ast.For) and ast.unparse(s.iter) == "model.opt_arg"]
     ok = len(l1) == 1 and len(l2) == 1 and post.body.index(l1[0]) < post.body.index(l2[0])
-    if ok:
-        g = l1[0].body[0]
-        reads = sorted({ast.unparse(n) for n in ast.walk(g) if isinstance(n, ast.Subscript) and ast.unparse(n.value) == "popt"})
-        incs = [norm_stmt(n) for n in g.body if isinstance(n, ast.AugAssign)] if isinstance(g, ast.If) else []
-        ok = isinstance(g, ast.If) and ast.unparse(g.test) == "para[par]" and reads == ["popt[para_skip]"] and incs == ["para_skip += 1"]
-        g2 = l2[0].body[0]
-        reads2 = sorted({ast.unparse(n) for n in ast.walk(g2) if isinstance(n, ast.Subscript) and ast.unparse(n.value) == "popt"})
-        incs2 = [norm_stmt(n) for n in g2.body if isinstance(n, ast.AugAssign)] if isinstance(g2, ast.If) else []
-        ok = ok and isinstance(g2, ast.If) and ast.unparse(g2.test) == "para[opt]" and reads2 == ["popt[para_skip + opt_skip]"] and incs2 == ["opt_skip += 1"]
-    ctx.check(ok, rule, FIT + "::_post_fitting", "the optimum is unpacked with the same layout: DEFAULT_PARA slots at popt[para_skip], optional arguments at popt[para_skip + opt_skip]", "post-layout")
+    ctx.check(ok, rule, FIT + "::_post_fitting", "the optimum is unpacked in two loops: standard parameters, then optional arguments", "post-loops")
+    slot_agreement(ctx, rule, pack, curve, post, DP)
     an = [n for n in ast.walk(post) if isinstance(n, ast.Assign) and ast.unparse(n.targets[0]) == "model.anis"]
     ok = len(an) == 1 and ast.unparse(an[0].value) == "popt[1 - model.dim:]" and _guards(post, an[0]) == ["is_dir_vario", "anis"]
     ctx.check(ok, rule, FIT + "::_post_fitting", "anisotropy ratios are read from the tail of the optimum under the same guards", "post-anis")
+
+
+def slot_agreement(ctx, rule, pack, curve, post, DP):
+    """Semantic layout check with the cursor interpreter: for every selection of fitted parameters (3 standard + 2 optional arguments:
+    32 selections, with and without anisotropy) the slot each parameter gets when the vector is PACKED equals the slot it is read from in
+    the residual function and in the post-processing - however the cursor arithmetic is written."""
+    from ..cursor import CursorError, slot_map
+
+    opts = ["opt_a", "opt_b"]
+    lists = {"DEFAULT_PARA": DP, "model.opt_arg": opts}
+    dim = 3
+    n = 0
+    bad = []
+    for bits in itertools.product([True, False], repeat=len(DP) + len(opts)):
+        sel = dict(zip(DP + opts, bits))
+        for anis in (True, False):
+            consts = {"model.dim": dim, "anis": anis, "is_dir_vario": anis}
+            try:
+                p_ = slot_map(pack.body, sel, lists, consts, vectors=(), pack_lists=("init_guess_list",))
+                c_ = slot_map(curve.body, sel, lists, consts, vectors=("args",))
+                q_ = slot_map(post.body, sel, lists, consts, vectors=("popt",))
+            except CursorError as e:
+                ctx.undecided(rule, FIT + "::_init_curve_fit_para/curve/_post_fitting", "cursor interpretation stopped: %s" % e)
+                return
+            n += 1
+            want = {k: i for i, k in enumerate([k for k in DP + opts if sel[k]])}
+            nsel = len(want)
+            pk = {k: v for k, v in p_.items() if k != "<tail>"}
+            ck = {k: v for k, v in c_.items() if k != "<tail>"}
+            qk = {k: v for k, v in q_.items() if k != "<tail>"}
+            if not (pk == ck == qk == want):
+                bad.append("selection %s: packed %s, residual function reads %s, post-processing reads %s" % ({k: v for k, v in sel.items() if v}, pk, ck, qk))
+            if anis:
+                if not (p_.get("<tail>") == list(range(nsel, nsel + dim - 1)) and c_.get("<tail>") == 1 - dim and q_.get("<tail>") == 1 - dim):
+                    bad.append("anisotropy tail: packed at %s, read from %s / %s (expected the last %d entries)" % (p_.get("<tail>"), c_.get("<tail>"), q_.get("<tail>"), dim - 1))
+            elif "<tail>" in p_ or "<tail>" in c_ or "<tail>" in q_:
+                bad.append("anisotropy slots used although anis is not fitted")
+    ctx.check(not bad, rule, FIT + "::_init_curve_fit_para/curve/_post_fitting",
+              "for all %d selections the slot of every fitted parameter agrees between packing, residual function and post-processing%s" % (n, "" if not bad else ": " + bad[0]), "slot-agreement")
+    ctx.floor(rule, "selections interpreted", n, 64)
 
 
 def bound_sources(ctx, rule="R10.2"):
